@@ -139,3 +139,71 @@ def fast_sig(obj, with_base=True):
     """Cheaper comparable signature for per-event observation (tuple of leaves)."""
     fl = flatten(obj, with_base=with_base)
     return tuple(sorted(fl.items()))
+
+
+class FastWatch:
+    """Cheap change detector for per-source-line observation.
+
+    Collects every array (and its ultimate base buffer) and every container reachable from
+    the arguments once; sig() is a tuple of adler32 checksums of the array buffers and of
+    (length, element identities) of the containers.  A changed sig() is then confirmed with
+    the full flatten/diff.  Checksum collisions can only hide a change from the *observation*
+    pass (which merely directs fault injection); the verdict itself always uses full diffs.
+    """
+
+    def __init__(self, obj):
+        self.arrays = []
+        self.containers = []
+        self.objects = []
+        seen = set()
+
+        def walk(o):
+            if isinstance(o, np.ndarray):
+                if id(o) not in seen:
+                    seen.add(id(o))
+                    self.arrays.append(o)
+                    b = _base_of(o)
+                    if b is not None and id(b) not in seen:
+                        seen.add(id(b))
+                        self.arrays.append(b)
+                return
+            if o is None or isinstance(o, (bool, int, float, complex, str, bytes, np.generic, slice)):
+                return
+            if id(o) in seen:
+                return
+            seen.add(id(o))
+            if isinstance(o, (list, tuple)):
+                self.containers.append(o)
+                for x in o:
+                    walk(x)
+            elif isinstance(o, dict):
+                self.containers.append(o)
+                for x in o.values():
+                    walk(x)
+            elif isinstance(o, np.random.RandomState) or callable(o):
+                return
+            elif hasattr(o, "__dict__"):
+                self.objects.append(o)
+                for x in vars(o).values():
+                    walk(x)
+
+        walk(obj)
+
+    def sig(self):
+        import zlib
+
+        out = []
+        for a in self.arrays:
+            try:
+                out.append(zlib.adler32(a if a.flags.c_contiguous else a.tobytes()))
+            except (ValueError, TypeError):
+                out.append(zlib.adler32(a.tobytes()))
+            out.append(a.shape)
+        for c in self.containers:
+            if isinstance(c, dict):
+                out.append(tuple((repr(k), id(v)) if isinstance(v, (np.ndarray, list, tuple, dict)) or hasattr(v, "__dict__") else (repr(k), repr(v)) for k, v in c.items()))
+            else:
+                out.append(tuple(id(x) if isinstance(x, (np.ndarray, list, tuple, dict)) or hasattr(x, "__dict__") else repr(x) for x in c))
+        for o in self.objects:
+            out.append(tuple((k, id(v)) if isinstance(v, (np.ndarray, list, tuple, dict)) else (k, repr(v)) for k, v in sorted(vars(o).items())))
+        return tuple(out)
